@@ -130,10 +130,37 @@ def r5(ctx):
     c04.r3(ctx)
 
 
+def r6(ctx):
+    """the compound made by an operator (or by the constructor without meta=/visual=) has meta and visual objects of its
+    own: `c = a | b; c.meta['include'] = False` must negate the compound as a whole, not exclude operand a as well (which
+    is what happens when the compound holds a's own dictionary)."""
+    from ..vg import ExtRef
+    m = ctx.model
+    for cn, leaf in (('CompoundPixelRegion', 'CirclePixelRegion'), ('CompoundSkyRegion', 'CircleSkyRegion')):
+        ci = m.cls(cn)
+        ev = evaluator(ctx)
+        a = ev.symbolic_instance(m.cls(leaf), 'a')
+        b = ev.symbolic_instance(m.cls(leaf), 'b')
+        c = ev.construct(ci, [a, b, ExtRef('operator.or_')], {}, 0)
+        ctx.need(isinstance(c, Obj), f'{cn}.__init__', 'constructor not reducible')
+        shared = [k for k in ('meta', 'visual') if isinstance(c.fields.get(k), Obj)
+                  and getattr(c.fields[k], 'path', None) in (f'a.{k}', f'b.{k}')]
+        init = m.method(ci, '__init__')
+        if shared:
+            ctx.bad(f'{cn}.__init__', 'shares-operand-' + '-'.join(shared),
+                    f'without meta=/visual= the compound stores the first operand\'s own {" and ".join(shared)} object(s): '
+                    f'after `c = a | b; c.meta["include"] = False` operand a is excluded too, so c contains '
+                    '`not op(not a, b)` instead of `not op(a, b)` (for | that is `a and not b`; for ^ nothing is negated), '
+                    'while c.copy() — which copies the dictionary — answers differently', init.loc())
+        else:
+            ctx.ok(f'{cn}.__init__', 'meta and visual of the compound are objects of its own (copies)')
+
+
 RULES = [
     RuleDef('R1', 'operator table: &,|,^ -> Compound(self, other, and_/or_/xor)', r1, 6),
     RuleDef('R2', 'compound membership = operator(members), one include complement', r2, 2),
     RuleDef('R3', 'compound mask = operator on operands padded to the union box', r3, 1),
     RuleDef('R4', 'conversion and rotation are component-wise and keep the operator', r4, 14),
     RuleDef('R5', 'annulus algebra, area and box', r5, 12),
+    RuleDef('R6', 'a compound has meta/visual objects of its own (not the first operand\'s)', r6, 2),
 ]
